@@ -33,27 +33,21 @@ def live (rules : List Rule) : List Rule :=
 def idsSeparate (rules : List Rule) : Bool :=
   rules.all (fun a => rules.all (fun b => (key a).id != (key b).id || key a == key b))
 
-inductive Cat where
-  | csp | removeparam | genericHide | exception | important | tagged | normal | redirectOnly
-deriving DecidableEq, Repr
-
-def cat (f : Rule) : Cat :=
-  if f.isCsp then .csp else if f.isRemoveparam then .removeparam else if f.isGenericHide then .genericHide
-  else if f.isException then .exception else if f.isImportant then .important
-  else if f.tag.isSome && !f.isRedirect then .tagged
-  else if (f.isRedirect && f.alsoBlockRedirect) || !f.isRedirect then .normal else .redirectOnly
-
 /-- rule-by-rule evaluation -/
 def hits (rs : List Rule) (q : Request) (tags : List Str) : List Rule :=
   rs.filter (fun r => r.matches q && tagOk r tags)
 
+/-- candidates after the exception filter, with parsed priorities -/
+def redirectCands (matched : List Rule) : List (Str × Int) :=
+  let exceptions := (matched.filter Rule.isException).filterMap (·.modifier)
+  (((matched.filter (fun r => !r.isException)).filterMap (·.modifier)).filter
+    (fun m => !exceptions.contains m)).map parseRedirect
+
 /-- C13: the admissible redirect resources — those named by *a* maximum-priority matching redirect
     option that no matching redirect exception names (ties leave a choice to the implementation) -/
 def redirectChoices (matched : List Rule) : List Str :=
-  let exceptions := (matched.filter Rule.isException).filterMap (·.modifier)
-  let cands := (((matched.filter (fun r => !r.isException)).filterMap (·.modifier)).filter
-    (fun m => !exceptions.contains m)).map parseRedirect
-  cands.filterMap (fun (res, p) => if cands.all (fun (_, p') => p' ≤ p) then some res else none)
+  (redirectCands matched).filterMap
+    (fun c => if (redirectCands matched).all (fun c' => decide (c'.2 ≤ c.2)) then some c.1 else none)
 
 /-- all verdicts the contract admits (they differ only in the redirect when priorities tie) -/
 def verdicts (rules : List Rule) (tags : List Str) (st : Store) (q : Request) : List Verdict :=
@@ -70,15 +64,11 @@ def verdicts (rules : List Rule) (tags : List Str) (st : Store) (q : Request) : 
   redirects.map fun redirect =>
     { matched := blocking && !exception, important, exception, redirect, rewritten }
 
-/-- the CSP answer as a set (duplicate-free list) -/
+/-- the CSP answer as a set (duplicate-free list): directives of matching csp rules minus the
+    directives named by matching csp exceptions; nothing if a matching exception names none -/
 def csp? (rules : List Rule) (tags : List Str) (q : Request) : Option (List Str) :=
   if q.tyName != "Document" && q.tyName != "Subdocument" then none else
-  let fs := hits ((live rules).filter (fun f => cat f == .csp)) q tags
-  if fs.any (fun f => f.isException && f.modifier.isNone) then none else
-  let disabled := (fs.filter Rule.isException).filterMap (·.modifier)
-  let enabled := (fs.filter (fun f => !f.isException)).filterMap (·.modifier)
-  let remaining := dedupS (enabled.filter (fun d => !disabled.contains d))
-  if remaining.isEmpty then none else some remaining
+  cspMerge (hits ((live rules).filter (fun f => cat f == .csp)) q tags)
 
 /-- does the rule's parameter occur in the query as `name=<non-empty>`?  (only then can finding a
     removeparam rule make a difference) -/
@@ -93,5 +83,12 @@ def paramPresent (r : Rule) (q : Request) : Bool :=
 def tokenSound (r : Rule) (q : Request) : Bool :=
   !r.matches q || (r.isRemoveparam && !paramPresent r q) || r.getTokens.any (fun g =>
     if g.isEmpty then q.probe.contains 0 else g.all (fun t => q.probe.contains t))
+
+/-- the hypotheses of `engine_eq_scan_unoptimized`, as the executable check the driver evaluates on
+    every generated case (flag `D`) -/
+def caseOK (rules : List Rule) (q : Request) : Bool :=
+  rules.all (fun a => rules.all (fun b => a.id != b.id || a == b)) &&
+  idsSeparate rules && q.probe.contains 0 && rules.all (fun r => tokenSound r q) &&
+  rules.all (fun r => !(r.isRedirect && r.isRemoveparam))
 
 end Adb.Net.Spec
